@@ -73,12 +73,12 @@ def new_module(path):
     open(os.path.join(path, "design", "design.go"), "w").write(DESIGN_GO)
 
 
-def goa(cmd, mod, design_path):
+def goa(cmd, mod, design_path, extra=()):
     env = goenv()
     env["VERIF_DESIGN"] = design_path
     try:
         # no -o: the command line is echoed into every generated header, so it must be the same in every directory
-        p = subprocess.run([GOA, cmd, "gentest/design"], cwd=mod, env=env, capture_output=True, text=True, timeout=300)
+        p = subprocess.run([GOA, cmd, "gentest/design"] + list(extra), cwd=mod, env=env, capture_output=True, text=True, timeout=300)
     except subprocess.TimeoutExpired:
         return 124, "timeout"
     return p.returncode, (p.stdout + p.stderr)[-1500:]
@@ -174,6 +174,47 @@ class History:
         self.snaps[-1].pop(path, None)
         self.writes.pop(path, None)
         self.ops.append("rm %s" % hx(path))
+
+
+def outdir_history(c, work):
+    """`goa example -o DIR` (an output directory that is not the working directory) over multipart designs, twice, with every example file edited
+    in between: the second run succeeds and leaves every existing file as the user left it."""
+    for i in (1, 3):
+        mod = os.path.join(work, "outdir%d" % i)
+        new_module(mod)
+        dj = os.path.join(mod, "design.json")
+        open(dj, "w").write(designs.make_design(c.seed, i, ["-multipart-design"]))
+        out = os.path.join(mod, "out")
+        os.makedirs(out)
+        steps = []
+        inp = {"seed": c.seed, "index": i, "flags": ["-multipart-design"], "history": ["gen -o out", "example -o out", "edit every example file", "example -o out"]}
+        for cmd in ("gen", "example"):
+            rc, text = goa(cmd, mod, dj, ["-o", "out"])
+            steps.append(cmd)
+            if rc != 0:
+                c.fail("c09/outdir/%s-fails" % cmd, "goa %s -o out fails for multipart design %d: %s" % (cmd, i, text[-300:]), input=dict(inp, history=steps))
+                break
+        else:
+            mine = {}
+            for root, dirs, files in os.walk(out):
+                dirs[:] = [d for d in dirs if not (root == out and d == "gen")]
+                for f in files:
+                    if f.endswith(".go"):
+                        full = os.path.join(root, f)
+                        with open(full, "a") as fh:
+                            fh.write("\n// edited by the user\n")
+                        mine[full] = open(full, "rb").read()
+            rc, text = goa("example", mod, dj, ["-o", "out"])
+            c.evaluations += 1
+            c.count(("outdir", i))
+            c.hist("example -o DIR over edited files", "ok" if rc == 0 else "fails")
+            if rc != 0:
+                c.fail("c09/outdir/second-example-fails", "the second `goa example -o out` over its own edited output fails: %s" % text[-300:], input=inp)
+            for full, content in mine.items():
+                if open(full, "rb").read() != content:
+                    c.fail("c09/outdir/example-modifies-existing-file", "`goa example -o out` changed the existing file %s" % os.path.relpath(full, mod), input=inp)
+                    break
+        shutil.rmtree(mod, ignore_errors=True)
 
 
 def check_design(args):
@@ -432,6 +473,7 @@ def run(c):
     if not lean_ok:
         n = max(n, 40)  # a proof obligation broke: widen the dynamic search
     work = designs.scratch("C09")
+    outdir_history(c, work)
     results = designs.parallel(check_design, [(c.seed, i, work) for i in range(n)], workers=12)
     lines = []
     for r in results:
